@@ -4,6 +4,7 @@ import KoordVerif.Model.C17Read
 import KoordVerif.Model.C17Opts
 import KoordVerif.Model.C17Cache
 import KoordVerif.Model.C17Arb
+import KoordVerif.Model.C17Scav
 /-
 Driver for C17.  A case is one history of one PodMigrationJob:
   init <paused direct ttl podRefValid podUID resvRef evictAnno createdBy> <phase status reason node podRef> <n> (<ty st reason msg>)*n
@@ -22,6 +23,10 @@ codes 0 "" / 1 ReservationFirst / 2 EvictDirectly, dispatched by `effDirect`.
   arbinit <phase pod nonRetry retry> | arbadd | arbset <phase> | arbpod <0|1> | arbround      (Model/C17Arb.lean)
 after `rec` / `lagrec` that CREATED the reservation additionally:  wresv <ao ttl expires owners createdBy order userLabel nodeCleared podTmplUser skipAffinity>
 after `lagrec` additionally:  lag <versions back actually served>;  after `arbround`:  arb <phase passed waiting>
+  evictjob <ctrl dfltMode ttl> <uid node sched msg pending>        (instead of `init`) the job Reconciler.Evict of instance <ctrl> creates for that pod
+                                                                   (Model/C17Scav.lean createdJob); output: created 1 <createdBy direct ttl podUID phase resvRef>
+  scav <faultmask>                                                 one round of doScavenge; output: scav <jobExists resvExists> / sacts (<kind ok>)*
+  recg                                                             reconcile request after the job was deleted; output: recg <API writes>
 Output, after every `rec` / `recx` only:
   job <phase status reason node podRef podUID resvRef>
   conds (<ty st reason msg>)*
@@ -132,6 +137,7 @@ structure DS where
   olds : List Job := []
   assumed : Option Nat := none
   arb : Option ArbS := none
+  gone : Bool := false
 
 def aoCode : Option Bool → Nat
   | none => 0
@@ -155,7 +161,30 @@ def stepLineD (ds : DS) (line : String) : DS :=
     let (ow, out) := stepLine (ds.w, ds.out) line
     { ds with w := ow, out := out }
   match toks line with
-  | "init" :: _ => { base ds with tm := none, ver := 0, olds := [], assumed := none }
+  | "init" :: _ => { base ds with tm := none, ver := 0, olds := [], assumed := none, gone := false }
+  | "evictjob" :: rest =>
+    match nats? rest with
+    | some [ctrl, dflt, ttl, uid, node, sched, msg, pend] =>
+      let p : Pod := ⟨uid, node, sched, msg, nb pend⟩
+      let job := createdJob ctrl (effDirect dflt dflt) ttl p
+      { ds with w := some { job := job, env := { emptyEnv with pod := some p, ctrl := ctrl } }, tm := none, ver := 0, olds := [],
+                assumed := none, gone := false,
+                out := ds.out ++ ["created " ++ showNats [1, job.spec.createdBy, bn job.spec.direct, job.spec.ttl, job.spec.podUID,
+                                                         job.status.phase, bn job.spec.resvRef]] }
+    | _ => bad
+  | ["scav", f] =>
+    match ds.w, f.toNat? with
+    | some w, some f =>
+      let (s', acts) := scavenge false ⟨w, ds.gone⟩ f
+      let flat := acts.foldl (fun acc a => acc ++ [a.1, bn a.2]) ([] : List Nat)
+      { ds with w := some s'.w, gone := s'.gone,
+                out := ds.out ++ ["scav " ++ showNats [bn (!s'.gone), bn s'.w.env.resv.isSome],
+                                  (if flat.isEmpty then "sacts" else "sacts " ++ showNats flat)] }
+    | _, _ => bad
+  | ["recg"] =>
+    match ds.w with
+    | some w => if ds.gone then { ds with out := ds.out ++ ["recg " ++ toString (reconcileS ⟨w, true⟩ 0).2.acts.length] } else bad
+    | none => bad
   | "restart" :: _ => { base ds with olds := [], assumed := none }
   | "tmpl" :: rest =>
     match nats? rest with
@@ -171,6 +200,7 @@ def stepLineD (ds : DS) (line : String) : DS :=
       | none => bad
     | _, _, _ => bad
   | ["rec", f] =>
+    if ds.gone then bad else
     match ds.w, f.toNat? with
     | some w, some f =>
       let (w', o) := step w (.recon f)
